@@ -6,8 +6,9 @@
 (*   property            : Transformer.tla - every observation of the implementation-shaped model   *)
 (*                         is a step of the abstract life cycle (`acc`), where the oracle is        *)
 (*                         learned from the same model run on a fresh object (IFresh)               *)
-(*   known deviations    : KD_* of TransformerImpl are kept out of the design check (GuardP /       *)
-(*                         GuardE) and shown real by DeviationsAreReal                              *)
+(*   known deviations    : none at this level (the two found in round 1 - parameter value shadowed   *)
+(*                         by an older expression string, stale error message - are repaired in     *)
+(*                         /repo and the transcription follows the repaired code)                   *)
 (*   generator           : `hist` is the shortest call history reaching each view; the VIEW hides   *)
 (*                         hist / oracle / last / acc but keeps                                      *)
 (*                          - the implementation-shaped state m (parameter holders with both slots,  *)
@@ -29,8 +30,7 @@ CONSTANTS MaxHist,        \* length of the call histories
           ParseDocs,      \* sources the generator parses             (subset of PoolSrc)
           InlineSS,       \* stylesheets passed inline to transform() (subset of PoolSS)
           InlineSrc,      \* sources passed inline                    (subset of PoolSrc)
-          Vals,           \* parameter values used                    (subset of PoolPVals)
-          GuardP, GuardE  \* TRUE: keep the known deviation paramExprShadowsValue / staleErrorMessage out
+          Vals            \* parameter values used                    (subset of PoolPVals)
 
 VARIABLES m, resid, prev, hist, last, acc
 
@@ -38,9 +38,9 @@ mcvars == <<vars, m, resid, prev, hist, last, acc>>
 LastCall == IF hist = <<>> THEN [op |-> "init"] ELSE hist[Len(hist)]
 NoResid == [ss |-> "none", class |-> "none", via |-> "none", src |-> "none"]
 (* prev = resid before the last call: kept in the view when that call was a transformation (the observer of a leak) *)
-(* and ran one of the state-heavy stylesheets S1..S4 on a well-formed source                                        *)
+(* and ran one of the state-heavy stylesheets S1..S6 on a well-formed source                                        *)
 Observer(c) == /\ c.op = "Transform"
-               /\ DocOf(c.ss, liveSS) \in {"S1", "S2", "S3", "S4"}
+               /\ DocOf(c.ss, liveSS) \in {"S1", "S2", "S3", "S4", "S5", "S6"}
                /\ DocOf(c.src, liveSrc) # "DX"
 View == <<params, fns, liveSS, nSS, liveSrc, nSrc, lastError, m, resid,
           IF Observer(LastCall) THEN prev ELSE NoResid, LastCall>>
@@ -86,17 +86,15 @@ DoTransform(ssRef, srcRef) ==
       key == TKey(ssDoc, srcDoc, params, fns)
       f == Step(St, IFresh(ssDoc, srcDoc, params, fns))        \* the Fresh event of the harness
       known == key \in DOMAIN oracle
-  IN /\ (GuardE => ~KD_staleErrorTransform(m, srcRef, r.ev.status))
-     /\ Do(r, IF known THEN St ELSE f.st, known \/ f.ok)
+  IN /\ Do(r, IF known THEN St ELSE f.st, known \/ f.ok)
      /\ resid' = [ss |-> ssDoc, class |-> Class(ssDoc, srcDoc, EffParams(m), m.functions),
                    via |-> ssRef.k, src |-> srcDoc]
 
 MCNext ==
   /\ Len(hist) < MaxHist
-  /\ \/ \E d \in CompileDocs : nSS < MaxH /\ (GuardE => ~KD_staleErrorCompile(m, d)) /\ Plain(ICompile(m, d))
+  /\ \/ \E d \in CompileDocs : nSS < MaxH /\ Plain(ICompile(m, d))
      \/ \E d \in ParseDocs : nSrc < MaxH /\ Plain(IParse(m, d))
      \/ \E k \in PoolPNames, v \in Vals : /\ v # params[k]
-                                          /\ (GuardP => ~KD_paramExprShadowsValue(m, k, v))
                                           /\ Plain(ISetParam(m, k, v))
      \/ (m.holders # MInit.holders /\ Plain(IClearParams(m)))
      \/ \E f \in PoolFNames : IF fns[f] THEN Plain(IUninstallFn(m, f)) ELSE Plain(IInstallFn(m, f))
@@ -106,7 +104,7 @@ MCNext ==
 
 MCSpec == MCInit /\ [][MCNext]_mcvars
 
-(* ---- properties of the design (checked with GuardP = GuardE = TRUE) ---------------------------- *)
+(* ---- properties of the design ------------------------------------------------------------------ *)
 (* every observation of the implementation-shaped transformer is a step of the abstract life cycle *)
 Refinement == acc
 
@@ -126,20 +124,4 @@ OracleDeterministic == \A key \in DOMAIN oracle :
 (* the generator never uses a handle that is not live (Step would have rejected it: acc)              *)
 (* (a Transform step of this model includes the Fresh run that teaches the oracle)                     *)
 Sticky == [][StickyStep([St EXCEPT !.oracle = oracle'], last', St')]_mcvars
-
-(* the known deviations are real: the transcribed bookkeeping does leave the abstract life cycle there *)
-(* (if a repaired algorithm makes this fail, predicate and known_findings entry go together)          *)
-Probe == [k |-> "i", d |-> "S1"]
-DeviationsAreReal ==
-  /\ \A k \in PoolPNames, v \in Vals :
-        (v # params[k] /\ KD_paramExprShadowsValue(m, k, v)) =>
-            LET s1 == ISetParam(m, k, v)
-                st1 == Step(St, s1.ev).st
-                st2 == Step(st1, IFresh("S1", "D1", st1.params, st1.fns)).st
-            IN ~Step(st2, ITransform(s1.m, Probe, [k |-> "i", d |-> "D1"]).ev).ok
-  /\ \A d \in CompileDocs : KD_staleErrorCompile(m, d) => ~Step(St, ICompile(m, d).ev).ok
-  /\ \A h \in DOMAIN liveSrc :
-        LET r == ITransform(m, Probe, [k |-> "h", h |-> h])
-            st2 == Step(St, IFresh("S1", liveSrc[h], params, fns)).st
-        IN KD_staleErrorTransform(m, [k |-> "h", h |-> h], r.ev.status) => ~Step(st2, r.ev).ok
 =============================================================================
